@@ -283,3 +283,7 @@ def selftest():
     if not getattr(partitioned, '_VERIF_HOOKS', False):
         raise HarnessError('the kernel-forcing hook is not present / not enabled in scared.distinguishers.partitioned')
     return stats.selftest()
+
+
+# dimensions added after the fourth and fifth round of seeded changes (DESIGN.md 8.3, 8.4); part of the rule reported in the evidence
+RULE += ' Added with the fourth and fifth round of seeded changes: first/last sample exactly zero for every trace; batches of 2 100..6 040 traces with 2-3 classes (template build, SNR) under every kernel sequence.'
